@@ -927,7 +927,7 @@ def c09_g5(ctx):
                     good = "end of the range just passed"
                 elif a[0] == "proj" and a[2] == ".1" and simp(a[1])[0] == "call" and (callee_name(simp(a[1])) or "").endswith("index"):
                     idx = expr_str(simp(a[1])[3][1]) if len(simp(a[1])[3]) > 1 else ""
-                    if re.match(r"^\(slice::binary_search_by\(self\.0, closure gaps::\{closure#\d+\}\{%s\}\)\)@Ok\.0$" % re.escape(p_start), idx):
+                    if re.match(r"^\(slice::binary_search_by\(self\.0, closure \w+::\{closure#\d+\}\{%s\}\)\)@Ok\.0$" % re.escape(p_start), idx) and _cmp_start_closure(ctx, simp(a[1])[3][1]):
                         good = "end of the range that begins exactly at the window start (binary search Ok)"
                 if good:
                     yield ok("C09-G5", key, at(f), good)
@@ -935,6 +935,19 @@ def c09_g5(ctx):
                     yield bad("C09-G5", key, at(f), "the start of the next gap can be %s, which is not bounded below by the window start: a gap can begin before the requested window" % txt[:200])
     if n == 0:
         raise Anchor("C09-G5", "definitions of the gap-start variable")
+
+
+def _cmp_start_closure(ctx, idx_expr):
+    """the binary search compares each range's start (`x.0.cmp(&start)`): Ok(k) then means v[k].0 == start"""
+    for y in walk(idx_expr):
+        if y[0] == "agg" and y[1] == "closure":
+            c = ctx.prog.by_norm.get(y[2])
+            if c is None:
+                return False
+            ebc = ExprBuilder(ctx.prog, c)
+            rets = [expr_str(ebc._def_expr(d, 0, (0,))) for d in c.defs(0) if d[0] in ("assign", "call")]
+            return bool(rets) and all(re.match(r"^Ord( for u64)?>::cmp\(&\w+(\.\*)*\.0, &\w+\)$", r_) for r_ in rets)
+    return False
 
 
 @rule("C09", "C09-G6", 4, "the coalescing helper is applied to the very range whose end was just extended (same index expression)", also=("C20",))
